@@ -511,3 +511,346 @@ class FsLen(Contract):
 
 
 CONTRACTS += [FsIter(), FsLen()]
+
+
+# ------------------------------------------------------------------------------------------------ EmbeddedRegistry
+# The archive of an embedded registry is a constant of the installed package (D-TAR): T = tar_listing(_file), member e
+# with name tar_name(e) holding one record with id tar_recid(e).  `_data` files every member under its RECORD ID,
+# `__iter__` yields MEMBER NAMES and `__len__` counts members: the three agree exactly for well-formed archives
+# (AW: names pairwise distinct, name = record id) -- lemmas C20.L3*, AW itself being evaluated on the shipped archives.
+from pyvc.models_moclo import tar_listing, tar_name, tar_recid, TARSEQ  # noqa: E402
+
+ITEMFN = dict(recid=("item_recid", STR), res=("item_res", STR), circ=("item_circ", BOOL), entrec=("item_wraps", BOOL))
+
+
+def item_recid(i):
+    return tm.app("item_recid", STR, i)
+
+
+def known_res(ex, t):
+    table = FindResistance().table(ex)
+    return tm.or_(*[tm.eq(t, tm.S(v)) for v in sorted(set(table.values()))])
+
+
+def mk_embedded(st):
+    reg = VObj("EmbeddedRegistry")
+    st.set_inplace(reg, "_file", VT(tm.V("file", STR)))
+    st.set_inplace(reg, "_module", VT(tm.V("module", STR)))
+    return reg
+
+
+def emb_listing(st, reg):
+    return tar_listing(st.get(reg, "_file").t)
+
+
+def data_post(ex, D, T, W, upto):
+    """what the data mapping is, given the members T[0..upto) processed (witness W: which member a key comes from)"""
+    s, j = tm.V("s", STR), tm.V("j", INT)
+    present = tm.ne(tm.select(D, s), ABSENT)
+    it = tm.select(D, s)
+    return [
+        ("every-entry-is-filed-under-its-own-id", inv_data(D)),
+        ("every-member-record-id-is-a-key", tm.forall_range(j, 0, upto, tm.ne(tm.select(D, tar_recid(tm.seqnth(T, j))), ABSENT))),
+        ("every-key-is-the-record-id-of-a-member", tm.forall([s], tm.implies(present, tm.and_(
+            tm.le(0, tm.select(W, s)), tm.lt(tm.select(W, s), upto), tm.eq(tar_recid(tm.seqnth(T, tm.select(W, s))), s))))),
+        ("every-item-holds-a-circular-record-with-the-key-as-id-and-a-known-resistance", tm.forall([s], tm.implies(present, tm.and_(
+            tm.eq(item_recid(it), s), tm.app("item_circ", BOOL, it), tm.app("item_wraps", BOOL, it),
+            known_res(ex, tm.app("item_res", STR, it)))))),
+    ]
+
+
+class TarLoop(LoopSpec):
+    kind, iterates = ast.For, "next"
+
+    def __init__(self, con):
+        self.con = con
+
+    def _dict(self, st):
+        ds = [v for v in st.env.values() if isinstance(v, VDict)]
+        if len(ds) != 1:
+            from pyvc.symex import Unsupported
+            raise Unsupported("archive loop: no single dict being filled")
+        return ds[0]
+
+    def havoc(self, ex, st, ctx, modified):
+        st = LoopSpec.havoc(self, ex, st, ctx, {m for m in modified if not isinstance(st.env.get(m), VDict)})
+        d = self._dict(st)
+        st.set_inplace(d, "arr", VT(tm.fresh("D", MAP)))
+        st.ghost["W"] = tm.fresh("W", IDX)
+        return st
+
+    def invariant(self, ex, st, ctx):
+        d = self._dict(st)
+        D = map_arr(st, d)
+        W = st.ghost.get("W", tm.constarr(IDX, 0))
+        return data_post(ex, D, self.con.T, W, ctx["k"]) + [("k-in-range", tm.le(ctx["k"], tm.seqlen(self.con.T)))]
+
+    def at_body_end(self, ex, st, ctx):
+        st = st.fork()
+        st.ghost["W"] = tm.store(st.ghost.get("W", tm.constarr(IDX, 0)), tar_recid(tm.seqnth(self.con.T, ctx["k"])), ctx["k"])
+        return st
+
+
+CONTENT_ERRORS = [("ValueError", None, None), ("RuntimeError", None, None), ("KeyError", None, None), ("StopIteration", None, None)]
+
+
+class EmbData(Contract):
+    """the mapping an embedded registry looks items up in: one entry per member record id, each filed under its own id,
+    holding a circular record with that id and a known resistance (content errors of the archive -- a member that is
+    not one circular GenBank record of a known type and resistance -- surface as ValueError / RuntimeError / KeyError)"""
+    file, qual = BASE, "EmbeddedRegistry._data"
+    props = ("C20",)
+
+    def setup(self, ex, st, variant):
+        reg = mk_embedded(st)
+        self.T = emb_listing(st, reg)
+        self.loops = {0: TarLoop(self)}
+        return dict(self=reg)
+
+    def raises(self, ex, st, a):
+        return list(CONTENT_ERRORS)
+
+    def ensures(self, ex, pre, st, a, result):
+        if not isinstance(result, VDict):
+            return [("returns-a-dict", tm.FALSE)]
+        if st.ghost.get("last_data") is result:
+            return []          # call site: result() has assumed the clauses for a fresh witness
+        T = emb_listing(pre, a["self"])
+        return data_post(ex, map_arr(st, result), T, st.ghost.get("W", tm.constarr(IDX, 0)), tm.seqlen(T))
+
+    def result(self, ex, st, a):
+        st = st.fork()
+        d = VDict(new_oid())
+        st.set_inplace(d, "items", {})
+        D, W = tm.fresh("D", MAP), tm.fresh("W", IDX)
+        st.set_inplace(d, "arr", VT(D))
+        T = emb_listing(st, a["self"])
+        st = st.assume(*[t for (_, t) in data_post(ex, D, T, W, tm.seqlen(T))])
+        st.ghost["last_data"] = d
+        st.ghost["W"] = W
+        ex.models.elem_kind = "Item"
+        return [(st, d)]
+
+
+class LoadEntity(Contract):
+    """the abstract hook: returns an entity wrapping the very record it was given (verified for the bundled
+    registries as C20.H* -- shape of the real `_load_entity` bodies plus the class tables), or a content error"""
+    file, qual = BASE, "EmbeddedRegistry._load_entity"
+    props = ("C20",)
+    trusted_body = True      # abstract in the base class: `return NotImplemented`
+
+    def setup(self, ex, st, variant):
+        return dict(self=mk_embedded(st), record=ex.models.sym_record(st, "CircularRecord", "rec"))
+
+    def raises(self, ex, st, a):
+        return list(CONTENT_ERRORS)
+
+    def ensures(self, ex, pre, st, a, result):
+        return [("wraps-the-record-given", tm.B(isinstance(result, VObj) and st.get(result, "record") is a["record"]))]
+
+    def result(self, ex, st, a):
+        st = st.fork()
+        e = VObj("AbstractModule")
+        st.set_inplace(e, "record", a["record"])
+        st.set_inplace(e, "ident", VT(tm.fresh("entity", INT)))
+        return [(st, e)]
+
+
+class LoadName(Contract):
+    file, qual = BASE, "EmbeddedRegistry._load_name"
+    props = ("C20",)
+
+    def setup(self, ex, st, variant):
+        return dict(self=mk_embedded(st), record=ex.models.sym_record(st, "CircularRecord", "rec"))
+
+    def ensures(self, ex, pre, st, a, result):
+        return [("the-record-name", tm.eq(result.t, pre.get(a["record"], "name").t) if isinstance(result, VT) else tm.FALSE)]
+
+    def result(self, ex, st, a):
+        return [(st, st.get(a["record"], "name"))]
+
+
+class LoadResistance(Contract):
+    file, qual = BASE, "EmbeddedRegistry._load_resistance"
+    props = ("C20",)
+
+    def setup(self, ex, st, variant):
+        return dict(self=mk_embedded(st), record=ex.models.sym_record(st, "CircularRecord", "rec"))
+
+    def raises(self, ex, st, a):
+        return [("RuntimeError", None, None)]
+
+    def ensures(self, ex, pre, st, a, result):
+        return [("a-known-antibiotic", known_res(ex, result.t) if isinstance(result, VT) else tm.FALSE)]
+
+    def result(self, ex, st, a):
+        return [(st, VT(tm.fresh("antibiotic", STR)))]
+
+
+def _emb_with_data(ex, st, variant):
+    """registry whose data mapping was computed before (`cached`) or not yet (`first-use`: `_data` runs, by contract)"""
+    reg = mk_embedded(st)
+    if variant == "cached":
+        d = VDict(new_oid())
+        st.set_inplace(d, "items", {})
+        st.set_inplace(d, "arr", VT(tm.V("D", MAP)))
+        st.set_inplace(reg, "__cache__EmbeddedRegistry._data", d)
+        ex.models.elem_kind = "Item"
+    return reg
+
+
+class EmbGetItem(Contract):
+    """lookup in the data mapping: KeyError exactly for a key the mapping does not hold; the item filed under the key"""
+    file, qual = BASE, "EmbeddedRegistry.__getitem__"
+    props = ("C20",)
+    variants = ("cached", "first-use")
+
+    def setup(self, ex, st, variant):
+        self.variant = variant
+        return dict(self=_emb_with_data(ex, st, variant), item=VT(tm.V("key", STR)))
+
+    def _D(self, st, a):
+        d = st.get(a["self"], "__cache__EmbeddedRegistry._data")
+        return map_arr(st, d) if d is not None else None
+
+    def requires(self, ex, st, a):
+        D = self._D(st, a)
+        return [("inv_data", inv_data(D))] if D is not None else []
+
+    def raises(self, ex, st, a):
+        D = self._D(st, a)
+        if D is None:
+            return [("KeyError", None, None)] + [c for c in CONTENT_ERRORS if c[0] != "KeyError"]
+        return [("KeyError", tm.eq(tm.select(D, a["item"].t), ABSENT), None)]
+
+    def ensures(self, ex, pre, st, a, result):
+        if not (isinstance(result, VObj) and result.kind == "Item"):
+            return [("returns-an-item", tm.FALSE)]
+        D = self._D(st, a)        # after the call the mapping is cached in both variants
+        if D is None:
+            return [("data-mapping-kept", tm.FALSE)]
+        return [("the-item-filed-under-the-key", tm.eq(st.get(result, "ident").t, tm.select(D, a["item"].t))),
+                ("item-carries-the-key-as-its-id", tm.eq(st.get(result, "id").t, a["item"].t))]
+
+    def result(self, ex, st, a):
+        st = st.fork()
+        return [(st, abstract_item(st, tm.fresh("item", INT)))]
+
+    def model_terms(self, ex, st, a):
+        return dict(key=a["item"].t)
+
+
+class NameLoop(LoopSpec):
+    """`for entry in iter(tar.next, None): yield entry.name` (the explicit form of the generator expression)"""
+    kind, iterates = ast.For, "next"
+
+    def __init__(self, con):
+        self.con = con
+
+    def havoc(self, ex, st, ctx, modified):
+        st = LoopSpec.havoc(self, ex, st, ctx, modified)
+        st.ghost["yielded"] = tm.fresh("Y", SEQS)
+        return st
+
+    def invariant(self, ex, st, ctx):
+        if "yielded" not in st.ghost:
+            from pyvc.symex import Unsupported
+            raise Unsupported("name loop outside a generator")
+        Y, T, j = st.ghost["yielded"], self.con.T, tm.V("j", INT)
+        return [("one-key-per-member-so-far", tm.eq(tm.seqlen(Y), ctx["k"])),
+                ("the-member-names-so-far", tm.forall_range(j, 0, ctx["k"], tm.eq(tm.seqnth(Y, j), tar_name(tm.seqnth(T, j))))),
+                ("k-in-range", tm.and_(tm.le(0, ctx["k"]), tm.le(ctx["k"], tm.seqlen(T))))]
+
+    def hints(self, ex, st, ctx):
+        Y1 = st.ghost["yielded"]
+        if Y1.op == "seq.++" and len(Y1.args) == 2 and Y1.args[1].op == "seq.unit":
+            P, e = Y1.args[0], Y1.args[1].args[0]
+            t = tm.V("t", INT)
+            return [tm.and_(tm.forall_range(t, 0, tm.seqlen(P), tm.eq(tm.seqnth(Y1, t), tm.seqnth(P, t))),
+                            tm.eq(tm.seqnth(Y1, tm.seqlen(P)), e), tm.eq(tm.seqlen(Y1), tm.add(tm.seqlen(P), 1)))]
+        return []
+
+
+class EmbIter(Contract):
+    """iteration yields the member names of the archive, in archive order"""
+    file, qual = BASE, "EmbeddedRegistry.__iter__"
+    props = ("C20",)
+
+    def setup(self, ex, st, variant):
+        reg = mk_embedded(st)
+        self.T = emb_listing(st, reg)
+        self.loops = {0: NameLoop(self)}
+        return dict(self=reg)
+
+    aux_lemmas = FsIter.aux_lemmas
+
+    def ensures(self, ex, pre, st, a, result):
+        if not (isinstance(result, VT) and result.t.sort == SEQS):
+            return [("yields-strings", tm.FALSE)]
+        T = emb_listing(pre, a["self"])
+        j = tm.V("j", INT)
+        return [("one-key-per-member", tm.eq(tm.seqlen(result.t), tm.seqlen(T))),
+                ("the-member-names-in-order", tm.forall_range(j, 0, tm.seqlen(T), tm.eq(tm.seqnth(result.t, j), tar_name(tm.seqnth(T, j)))))]
+
+    def result(self, ex, st, a):
+        Y = tm.fresh("keys", SEQS)
+        return [(st, VT(Y, "list"))]
+
+
+class EmbLen(Contract):
+    file, qual = BASE, "EmbeddedRegistry.__len__"
+    props = ("C20",)
+
+    def setup(self, ex, st, variant):
+        return dict(self=mk_embedded(st))
+
+    def ensures(self, ex, pre, st, a, result):
+        return [("the-number-of-members", tm.eq(result.t, tm.seqlen(emb_listing(pre, a["self"]))) if isinstance(result, VT) else tm.FALSE)]
+
+    def result(self, ex, st, a):
+        return [(st, VT(tm.fresh("len", INT)))]
+
+
+class EmbEq(Contract):
+    """two embedded registries are equal iff they read the same archive; nothing else equals one"""
+    file, qual = BASE, "EmbeddedRegistry.__eq__"
+    props = ("C20",)
+    variants = ("other-embedded", "other-combined")
+
+    def setup(self, ex, st, variant):
+        reg = mk_embedded(st)
+        if variant == "other-embedded":
+            other = VObj("EmbeddedRegistry")
+            st.set_inplace(other, "_file", VT(tm.V("file2", STR)))
+        else:
+            other, _ = mk_combined(ex, st)
+        return dict(self=reg, other=other)
+
+    def ensures(self, ex, pre, st, a, result):
+        if not isinstance(result, VT) or result.t.sort != BOOL:
+            return [("returns-a-bool", tm.FALSE)]
+        if a["other"].kind == "EmbeddedRegistry":
+            return [("same-archive", tm.eq(result.t, tm.eq(pre.get(a["self"], "_file").t, pre.get(a["other"], "_file").t)))]
+        return [("not-equal-to-another-kind", tm.eq(result.t, tm.FALSE))]
+
+    def result(self, ex, st, a):
+        return [(st, VT(tm.fresh("eq", BOOL)))]
+
+
+class EmbHash(Contract):
+    """hash is a function of the archive name (equal registries hash equally)"""
+    file, qual = BASE, "EmbeddedRegistry.__hash__"
+    props = ("C20",)
+
+    def setup(self, ex, st, variant):
+        return dict(self=mk_embedded(st))
+
+    def ensures(self, ex, pre, st, a, result):
+        return [("a-function-of-the-archive-name", tm.eq(result.t, tm.app("py_hash:EmbeddedRegistry", INT, pre.get(a["self"], "_file").t))
+                 if isinstance(result, VT) else tm.FALSE)]
+
+    def result(self, ex, st, a):
+        return [(st, VT(tm.app("py_hash:EmbeddedRegistry", INT, st.get(a["self"], "_file").t)))]
+
+
+CONTRACTS += [EmbData(), LoadEntity(), LoadName(), LoadResistance(), EmbGetItem(), EmbIter(), EmbLen(), EmbEq(), EmbHash()]
